@@ -377,6 +377,46 @@ def _run_spec(item):
         viol(f"{name}:missing_spec_silent", f"{name}: rounding spec deleted from the params but the call succeeds")
     except Exception:  # noqa: BLE001
         pass
+    # rules computed from parameters alone (e.g. the marginal-employment limit): "the unrounded value" has no input to vary, so
+    # the parameters are scaled by odd factors - with rounding disabled the real rule must then leave the grid; staying on
+    # it for every factor means the rule rounds by itself (double rounding, and rounding=False is not unrounded)
+    from vf import shadow
+
+    args = shadow.rule_args(f)
+    if args and all(a.endswith("_params") and a[:-7] in params for a in args):
+        def scaled(o, fac, path=()):
+            if isinstance(o, dict):
+                return {k: (v if k == "rounding" else scaled(v, fac, (*path, k))) for k, v in o.items()}
+            if isinstance(o, bool):
+                return o
+            if isinstance(o, (int, float)):
+                return float(o) * fac
+            if isinstance(o, np.ndarray) and o.dtype.kind in "fi":
+                return o.astype(float) * fac
+            return o
+
+        on_grid, moved = 0, 0
+        one = pd.DataFrame({"p_id": [0, 1], "wohnort_ost": [False, True]})
+        for fac in (1.1371191135734072, 0.8713450292397661, 1.0731707317073171):
+            p3 = copy.deepcopy(params)
+            for a in args:
+                p3[a[:-7]] = scaled(p3[a[:-7]], fac)
+            try:
+                with warnings.catch_warnings():
+                    warnings.simplefilter("ignore")
+                    v0 = env.compute_taxes_and_transfers(one, params, functions, targets=[name], rounding=False)[name].to_numpy().astype(float)
+                    v1 = env.compute_taxes_and_transfers(one, p3, functions, targets=[name], rounding=False)[name].to_numpy().astype(float)
+            except Exception:  # noqa: BLE001
+                break
+            res["param_only_probes"] = res.get("param_only_probes", 0) + 1
+            if np.any(v1 != v0):
+                moved += 1
+                q = (v1 - offset * 0) / base
+                if np.all(np.abs(q - np.round(q)) < 1e-9):
+                    on_grid += 1
+        if moved == 3 and on_grid == 3:
+            viol(f"{name}:rounds_by_itself", f"{name} at {item['date']}: with rounding=False and its parameters scaled by three odd factors the rule still "
+                                             f"returns multiples of {base} - it rounds inside the rule (double rounding; rounding=False is not unrounded)")
     res["status"] = "ok"
     res["sample"] = dict(rule=item["rule"], date=item["date"], spec={k: spec[k] for k in spec}, x=xs[:6].tolist(), rounded=r[:6].tolist())
     return res
@@ -407,6 +447,7 @@ def summarize(results, tier, seed):
         values_checked=sum(r["values_checked"] for r in ok),
         system_values_off_grid_before_rounding=sum(r.get("off_grid_inputs", 0) for r in sysr),
         derived_nodes_checked=sum(r.get("derived_checked", 0) for r in sysr),
+        parameter_only_rules_probed_with_scaled_parameters=sum(r.get("param_only_probes", 0) for r in spec),
         unmarked_rules_with_a_spec_checked=sum(r.get("unmarked_rules_with_spec", 0) for r in sysr),
         rounded_nodes_in_system_runs=sorted({t for r in sysr for t in r["rounded_nodes"]}),
         missing_spec_fault_injections=sum(r["fault_injections"] for r in ok),
